@@ -11,6 +11,7 @@ import (
 	"crypto/rand"
 	"crypto/sha256"
 	"encoding/binary"
+	"encoding/json"
 	"fmt"
 	"io"
 	"io/fs"
@@ -28,7 +29,9 @@ import (
 	"time"
 
 	pcounter "golang.org/x/telemetry/counter"
+	"golang.org/x/telemetry/internal/configstore"
 	"golang.org/x/telemetry/internal/counter"
+	"golang.org/x/telemetry/internal/proxy"
 	"golang.org/x/telemetry/internal/telemetry"
 	"golang.org/x/telemetry/internal/upload"
 	. "golang.org/x/telemetry/internal/verifh/vhlib"
@@ -287,6 +290,54 @@ func observeRun(dir string, start time.Time, xkey, ratekey int64, status int, ho
 	out.Case(true, f...)
 }
 
+// ---------------------------------------------------------------- published upload config
+
+var proxyRoot string // proxy + module cache of this harness process
+var proxySeq int
+
+// publishConfig writes cfg as the only (hence latest) version of the config
+// module on a file proxy and returns the go environment that makes
+// configstore.Download fetch it.
+func publishConfig(cfg *telemetry.UploadConfig) []string {
+	if proxyRoot == "" {
+		var err error
+		proxyRoot, err = os.MkdirTemp("", "vhgatingproxy")
+		if err != nil {
+			panic(err)
+		}
+	}
+	proxySeq++
+	version := fmt.Sprintf("v1.0.%d", proxySeq)
+	enc, err := json.Marshal(cfg)
+	if err != nil {
+		panic(err)
+	}
+	dp := fmt.Sprintf("%v@%v/", configstore.ModulePath, version)
+	pdir := filepath.Join(proxyRoot, "proxy")
+	os.RemoveAll(pdir)
+	uri, err := proxy.WriteProxy(pdir, map[string][]byte{
+		dp + "go.mod":      []byte("module " + configstore.ModulePath + "\n\ngo 1.20\n"),
+		dp + "config.json": enc,
+	})
+	if err != nil {
+		panic(err)
+	}
+	return []string{"GOPROXY=" + uri, "GONOSUMDB=*", "GOSUMDB=off", "GOFLAGS=", "GOMODCACHE=" + filepath.Join(proxyRoot, "modcache")}
+}
+
+func cleanProxy() {
+	if proxyRoot == "" {
+		return
+	}
+	filepath.WalkDir(proxyRoot, func(p string, d fs.DirEntry, err error) error {
+		if err == nil {
+			os.Chmod(p, 0777)
+		}
+		return nil
+	})
+	os.RemoveAll(proxyRoot)
+}
+
 // ---------------------------------------------------------------- scenario building
 
 type scen struct {
@@ -307,6 +358,14 @@ func newScen() *scen {
 	s := &scen{dir: dir, wd: rnd.Intn(7)}
 	telemetry.Default = telemetry.NewDir(dir)
 	return s
+}
+
+// ends0: a stand-in week end for a file that could not be written
+func (s *scen) ends0(t time.Time) time.Time {
+	if len(s.ends) > 0 {
+		return s.ends[0]
+	}
+	return t.UTC().Truncate(24 * time.Hour).Add(5 * 24 * time.Hour)
 }
 
 func (s *scen) ensureLocal() {
@@ -332,7 +391,10 @@ func (s *scen) countFile(now time.Time, ncounters int, prog string) {
 		Main: debug.Module{Path: "example.com/cmd", Version: "v1.2.3"}})
 	f.Rotate1()
 	if f.CurrentName() == "" {
-		panic("rotate1 failed in scenario set-up")
+		// e.g. a file of that name exists with (damaged) metadata that does not match
+		out.Note("count-file-not-opened")
+		s.lastName = ""
+		return
 	}
 	b, e := f.Span()
 	for i := 0; i < ncounters; i++ {
@@ -787,8 +849,13 @@ func caseScenario() {
 			nc = 0
 			out.Note("count-file-without-counters")
 		}
+		nb := len(s.begins)
 		s.countFile(t, nc, progs[i])
-		if nfiles > 1 && progs[0] != "vh" {
+		if len(s.begins) == nb { // not opened: keep begins/ends aligned with the file index
+			s.begins = append(s.begins, t.UTC().Truncate(24*time.Hour))
+			s.ends = append(s.ends, s.ends0(t))
+		}
+		if s.lastName != "" && nfiles > 1 && progs[0] != "vh" {
 			// a count file whose collection time is unknown / whose end is unreadable,
 			// next to healthy files of the same week
 			switch rnd.Intn(10) {
@@ -916,6 +983,18 @@ func (s *scen) oneRun(start time.Time) {
 		out.Note("via-upload.Run")
 		observeRun(s.dir, start, 0, 0, status, "Run", func() {
 			upload.Run(upload.RunConfig{TelemetryDir: s.dir, UploadURL: srv.srv.URL, StartTime: start})
+		})
+		return
+	}
+	if mode == "on" && rnd.Intn(5) == 0 {
+		// the real entry point in mode on: the upload config, with its SampleRate,
+		// is published on a (file) module proxy and fetched by configstore.Download
+		out.Note("via-upload.Run-mode-on-with-proxy")
+		env := publishConfig(&telemetry.UploadConfig{SampleRate: rate})
+		observeRun(s.dir, start, xkey, ratekey, status, "Run", func() {
+			if err := upload.Run(upload.RunConfig{TelemetryDir: s.dir, UploadURL: srv.srv.URL, StartTime: start, Env: env}); err != nil {
+				panic(fmt.Sprintf("upload.Run: %v", err))
+			}
 		})
 		return
 	}
@@ -1197,6 +1276,7 @@ func guard(what string, i int, fn func()) {
 		out.Note("hang")
 		out.Case(true, "hang", HS(what), I(int64(i)))
 		out.Close()
+		cleanProxy()
 		os.Exit(0)
 	}
 }
@@ -1218,6 +1298,7 @@ func main() {
 	defer os.RemoveAll(root)
 	srv = newServer()
 	defer srv.srv.Close()
+	defer cleanProxy()
 	for i := 0; i < n; i++ {
 		i := i
 		switch {
